@@ -93,6 +93,17 @@ def field_desc(rng, spec):
     return d
 
 
+def one_pixel_type(fds):
+    """The frames of one history share their pixel type (a simulation or a camera delivers one type; a storage
+    would cast frames of another type to that of the first frame)."""
+    dt = fds[0].get("dtype") if fds else None
+    for d in fds:
+        d.pop("dtype", None)
+        if dt:
+            d["dtype"] = dt
+    return fds
+
+
 def make_field(grid, spec, d):
     from pde import ScalarField
     from scipy import ndimage
@@ -202,14 +213,14 @@ def gen(rng, kind, tier):
     if kind == "storage":
         spec = rand_grid(rng)
         n = int(rng.integers(1, 6))
-        fds = [field_desc(rng, spec) for _ in range(n)]
+        fds = one_pixel_type([field_desc(rng, spec) for _ in range(n)])
         opts = locate_opts(rng, geom.space_dim(spec))
         times = sorted(float(x) for x in rng.uniform(-5, 20, n))
         return {"grid": spec, "fields": fds, "times": times, "opts": opts}
     if kind == "trackers":
         spec = rand_grid(rng)
         n = int(rng.integers(1, 5))
-        fds = [field_desc(rng, spec) for _ in range(n)]
+        fds = one_pixel_type([field_desc(rng, spec) for _ in range(n)])
         opts = locate_opts(rng, geom.space_dim(spec))
         method = str(rng.choice(["structure_factor_mean", "structure_factor_maximum", "droplet_detection"]))
         return {"grid": spec, "fields": fds, "opts": opts, "ls_method": method}
